@@ -306,10 +306,11 @@ OVERRIDES = ["path", "metadata_path", "memory_cache_mb", "memory_cache_mb=0", "r
 
 @obligation(
     "C18.override",
-    covers=tuple(OVERRIDES),
+    covers=tuple(OVERRIDES) + ("same-config-object-reused",),
     split={"which": list(range(len(OVERRIDES)))},
     bounds="for every option: configuration says X, the explicit constructor argument says Y != X (X drawn from the option's catalogue, the "
-           "other options from theirs); the behaviour is that of Y alone",
+           "other options from theirs); the behaviour is that of Y alone; the caller's configuration object is not modified, and a second backend "
+           "built from the same object without arguments follows the configuration",
     variables="choice: which (partitioned), mbi, roi, meta",
     budget_s={"quick": 120, "thorough": 400},
     choice_vars=4,
@@ -332,28 +333,32 @@ def override(which: int, meta: bool, mbi: int, roi: int):
                 return Environment(name="e", base_dir=root, repos=[rp])
 
             exp = {"stype": 0, "meta": meta, "mbi": mbi, "roi": roi, "ri": 0, "data": "data-cfg", "meta_dir": "meta-cfg"}
+            import copy as _copy
+
+            pristine = _copy.deepcopy(base)
+            shared = base  # the caller's configuration object itself (not a copy) goes to the constructor under test
             if w == "path":
-                st = FilesystemStorageBackend(dict(base), path=root + "/data-arg")
+                st = FilesystemStorageBackend(shared, path=root + "/data-arg")
                 exp["data"] = "data-arg"
                 if not meta:
                     exp["meta_dir"] = None
                 env = env_of(st)
             elif w == "metadata_path":
-                st = FilesystemStorageBackend(dict(base), metadata_path=root + "/meta-arg")
+                st = FilesystemStorageBackend(shared, metadata_path=root + "/meta-arg")
                 exp["meta"], exp["meta_dir"] = True, "meta-arg"
                 env = env_of(st)
             elif w == "memory_cache_mb":
                 arg = 1 if MB[mbi] != 1 else 0.5
-                st = FilesystemStorageBackend(dict(base), memory_cache_mb=arg)
+                st = FilesystemStorageBackend(shared, memory_cache_mb=arg)
                 exp["mbi"] = MB.index(arg)
                 env = env_of(st)
             elif w == "memory_cache_mb=0":
-                st = FilesystemStorageBackend(dict(base), memory_cache_mb=0)
+                st = FilesystemStorageBackend(shared, memory_cache_mb=0)
                 exp["mbi"] = 0
                 env = env_of(st)
             elif w in ("read_only=True", "read_only=False"):
                 arg = w.endswith("True")
-                st = FilesystemStorageBackend(dict(base), read_only=arg)
+                st = FilesystemStorageBackend(shared, read_only=arg)
                 exp["roi"] = RO.index(arg)
                 env = env_of(st)
             elif w in ("memory:read_only=True", "memory:read_only=False"):
@@ -390,6 +395,17 @@ def override(which: int, meta: bool, mbi: int, roi: int):
                 rp = ConfigurationRepository(name="r2", clusters={"c1": cl})
                 env = Environment({"name": "e", "base_dir": root, "repos": [{"name": "r", "clusters": {"c1": other}}]}, repos=[rp])
                 check("repos-argument-overrides-config", [r.name for r in env.repos] == ["r2"], [r.name for r in env.repos])
+            # an explicit argument overrides the configuration for THIS object only: the caller's configuration is left as it was,
+            # and another backend built from the same configuration object without arguments follows the configuration
+            check("constructor-leaves-the-caller's-configuration-untouched", base == pristine, (base, pristine))
+            if which < 6:
+                cover("same-config-object-reused")
+                env_b = env_of(FilesystemStorageBackend(shared))
+                fp_b = fingerprint(env_b, "c1", root, "o2")
+                ren_b = {"data-cfg": "data-c1", "meta-cfg": "meta-c1"}
+                fp_b["files"] = sorted("/".join([ren_b.get(p.split("/")[0], "UNEXPECTED:" + p.split("/")[0])] + p.split("/")[1:])
+                                       for p in fp_b["files"])
+                _expect(fp_b, 0, meta, mbi, roi, 0, "second-backend-from-the-same-config-object:")
             fp = fingerprint(env, "c1", root, "o")
             # rename the directories so that the shared expectation applies
             ren = {exp["data"]: "data-c1"}
